@@ -12,6 +12,14 @@ use serde_json::{json, Value};
 use std::collections::HashMap;
 use std::time::Duration;
 
+thread_local! {
+    /// name of the aggregated payload field (a flat key; the variant "m.x" contains the path separator)
+    static FIELD: std::cell::RefCell<String> = std::cell::RefCell::new("x".to_string());
+}
+fn fld() -> String {
+    FIELD.with(|f| f.borrow().clone())
+}
+
 const BASE: u64 = 1_700_000_000_010; // divisible by 1, 2, 3, 5: aligned windows agree with the spec's small clock
 
 pub struct WN {
@@ -30,6 +38,7 @@ pub struct WN {
 
 impl WN {
     pub fn new(cfg: &Value) -> WN {
+        FIELD.with(|f| *f.borrow_mut() = cfg["field"].as_str().unwrap_or("x").to_string());
         WN { m: "none".into(), w: 1, cap: 1, kind: "none".into(), mgr: None, tw: None, alpha: None, all: vec![], now: 10, n: 0,
              maxev: cfg["MaxEv"].as_u64().unwrap_or(2) as usize }
     }
@@ -38,10 +47,10 @@ impl WN {
 fn data(v: &str) -> HashMap<String, RV> {
     let mut d = HashMap::new();
     match v {
-        "i1" => { d.insert("x".to_string(), RV::Integer(1)); }
-        "i3" => { d.insert("x".to_string(), RV::Integer(3)); }
-        "f" => { d.insert("x".to_string(), RV::Number(2.5)); }
-        "s" => { d.insert("x".to_string(), RV::String("abc".into())); }
+        "i1" => { d.insert(fld(), RV::Integer(1)); }
+        "i3" => { d.insert(fld(), RV::Integer(3)); }
+        "f" => { d.insert(fld(), RV::Number(2.5)); }
+        "s" => { d.insert(fld(), RV::String("abc".into())); }
         _ => {}
     }
     d.insert("other".to_string(), RV::Integer(9));
@@ -62,22 +71,22 @@ fn x2(v: Option<f64>) -> i64 {
 /// aggregates of a TimeWindow, as twice-the-value integers (values are 1, 3, 2.5)
 fn agg_tw(t: &TimeWindow) -> Value {
     let ids: Vec<i64> = t.events().iter().map(idnum).collect();
-    let nnum = t.events().iter().filter(|e| e.get_numeric("x").is_some()).count();
-    let avg_ok = match t.average("x") {
-        Some(a) => nnum > 0 && ((a * nnum as f64) - t.sum("x")).abs() < 1e-9,
+    let nnum = t.events().iter().filter(|e| e.get_numeric(&fld()).is_some()).count();
+    let avg_ok = match t.average(&fld()) {
+        Some(a) => nnum > 0 && ((a * nnum as f64) - t.sum(&fld())).abs() < 1e-9,
         None => nnum == 0,
     };
-    let mut o = json!({"ids": ids, "count": t.count(), "sum2": x2(Some(t.sum("x"))), "nnum": nnum,
-                       "min2": x2(t.min("x")), "max2": x2(t.max("x"))});
+    let mut o = json!({"ids": ids, "count": t.count(), "sum2": x2(Some(t.sum(&fld()))), "nnum": nnum,
+                       "min2": x2(t.min(&fld())), "max2": x2(t.max(&fld()))});
     if !avg_ok {
-        o["average_disagrees"] = json!(t.average("x"));
+        o["average_disagrees"] = json!(t.average(&fld()));
     }
     o
 }
 
 fn agg_events(evs: &[&StreamEvent]) -> Value {
     let ids: Vec<i64> = evs.iter().map(|e| idnum(e)).collect();
-    let nums: Vec<f64> = evs.iter().filter_map(|e| e.get_numeric("x")).collect();
+    let nums: Vec<f64> = evs.iter().filter_map(|e| e.get_numeric(&fld())).collect();
     let sum: f64 = nums.iter().sum();
     let mn = nums.iter().cloned().fold(None, |a: Option<f64>, x| Some(a.map_or(x, |m| m.min(x))));
     let mx = nums.iter().cloned().fold(None, |a: Option<f64>, x| Some(a.map_or(x, |m| m.max(x))));
@@ -185,13 +194,13 @@ impl Model for WN {
                     AggregateResult::String(evs.iter().map(|e| idnum(e).to_string()).collect::<Vec<_>>().join(","))
                 })));
                 let nnum = by_start(&|ws| ws.aggregate(CustomAggregator::new(|evs: &[StreamEvent]| {
-                    AggregateResult::Number(evs.iter().filter(|e| e.get_numeric("x").is_some()).count() as f64)
+                    AggregateResult::Number(evs.iter().filter(|e| e.get_numeric(&fld()).is_some()).count() as f64)
                 })));
                 let cnt = by_start(&|ws| ws.aggregate(Count));
-                let sum = by_start(&|ws| ws.aggregate(Sum::new("x")));
-                let mn = by_start(&|ws| ws.aggregate(Min::new("x")));
-                let mx = by_start(&|ws| ws.aggregate(Max::new("x")));
-                let avg = by_start(&|ws| ws.aggregate(Average::new("x")));
+                let sum = by_start(&|ws| ws.aggregate(Sum::new(fld())));
+                let mn = by_start(&|ws| ws.aggregate(Min::new(fld())));
+                let mx = by_start(&|ws| ws.aggregate(Max::new(fld())));
+                let avg = by_start(&|ws| ws.aggregate(Average::new(fld())));
                 let ws = mk();
                 let counts: HashMap<u64, usize> = { let w2 = mk(); let st: Vec<u64> = w2.windows().iter().map(|t| t.start_time).collect(); st.into_iter().zip(w2.counts()).collect() };
                 let mut ts: Vec<&TimeWindow> = ws.windows().iter().collect();
